@@ -29,7 +29,11 @@ MANIFEST = dict(
           "iwjson_ftoa; iwstrtod is not correctly rounded: open finding F8); keys containing U+0000 are truncated (open finding F9)"),
     technique="Lean 4 proof over executable model + differential correspondence (C harness vs compiled Lean driver) + reference parser oracle")
 MODULE = "IwModel.Props.C13"
-THEOREMS = []
+THEOREMS = [
+    "IwModel.C13.unescape_two_pass", "IwModel.C13.string_spellings", "IwModel.C13.integer_exact",
+    "IwModel.C13.parse_render_partial", "IwModel.C13.key_nul_truncated", "IwModel.C13.utf8_roundtrip",
+    "IwModel.C13.generated_ok",
+]
 
 H = lambda b: binascii.hexlify(bytes(b)).decode() or "-"
 I64_MIN, I64_MAX = -(1 << 63), (1 << 63) - 1
